@@ -101,6 +101,17 @@ WcDtStep == /\ E.op = "Cal.WithCalendarDT"
                   Report(l, E.op, A.from \o "/with-calendar-datetime", IF WcChained THEN WcDtExpected ELSE "session-chain-broken", E.out))
             /\ UNCHANGED <<cur, prev, hi, leaps, edir, hist, last, ids, lens>>
 
+\* PlainDate::with({day: k}) in the day's own calendar: the same year and month, day k - k - cur.day days away; also to_plain_year_month
+\* (the receiver's fields other than the day are kept, whatever era / year designation the calendar has)
+WdExpected == IF A.k >= 1 /\ A.k <= cur.dim
+              THEN (IF cur.n - cur.day + A.k >= -100000001 /\ cur.n - cur.day + A.k <= 100000000 THEN Ok([iso |-> IsoOf(cur.n - cur.day + A.k)]) ELSE [kind |-> "range"])
+              ELSE [kind |-> "any"]
+WdOK == IF E.out.kind \in {"ok", "range"} /\ WdExpected.kind = "any" THEN TRUE ELSE E.out = WdExpected
+WdStep == /\ E.op = "Cal.WithDay"
+          /\ (~(WcChained /\ InBounds(cur) /\ WdOK) /\ ~(WcChained /\ ~InBounds(cur)) =>
+                Report(l, E.op, A.from \o "/with-day", IF WcChained THEN WdExpected ELSE "session-chain-broken", E.out))
+          /\ UNCHANGED <<cur, prev, hi, leaps, edir, hist, last, ids, lens>>
+
 (* ---------------- Cal.Id ---------------- *)
 Accepted1(o) == o.kind = "ok"
 Clean(o) == o.kind \in {"ok", "range", "type", "syntax"}
@@ -126,7 +137,7 @@ TInit == /\ l = 1 /\ cur = Nil /\ prev = Nil /\ hi = 0 /\ leaps = 0 /\ edir = 0 
          /\ ids = Empty /\ lens = Empty
 Reset == /\ E.op = "reset" /\ cur' = Nil /\ last' = None /\ leaps' = 0 /\ edir' = 0
          /\ UNCHANGED <<prev, hi, hist, ids, lens>>
-TNext == l <= NEv /\ l' = l + 1 /\ (Reset \/ DayStep \/ RebuildStep \/ WcStep \/ WcDtStep \/ IdStep)
+TNext == l <= NEv /\ l' = l + 1 /\ (Reset \/ DayStep \/ RebuildStep \/ WcStep \/ WcDtStep \/ WdStep \/ IdStep)
 TSpec == TInit /\ [][TNext]_tvars
 
 \* evaluated at every step: the current day is an in-range ISO day
